@@ -13,7 +13,7 @@ package zkenc
 //@ func (*Proof).Verify
 //@   use bits
 //@   nopanic[C05]
-//@   modifies hstate(hash)
+//@   modifies hstate(hash), wlog(hash.h)
 //@   requires group != nil && hash != nil && hash.h != nil && true && pkok(public.Prover) && pkvals(public.Prover) && pkbig(public.Prover) && pedok(public.Aux)
 
 //@ func challenge
